@@ -465,6 +465,11 @@ fn sweeps(tier: Tier) -> Vec<Sweep> {
         if tier == Tier::Thorough || l.len() % 3 == 0 {
             cases.push(format!("DEFAULT 0 1 0\nSPACE 0 1 0\nAL 1 1 2\nKJ 0 0 2\n{l}\nA 0 1 3\n0x43 A\n").into_bytes());
         }
+        // a range line over an earlier, wider range line: the later line wins (also when it
+        // names DEFAULT only)
+        if l.starts_with("0x") {
+            cases.push(format!("DEFAULT 0 1 0\nSPACE 0 1 0\nAL 1 1 2\nKJ 0 0 2\nA 1 0 1\nB 0 1 1\n0x40..0x44 A B\n{l}\n").into_bytes());
+        }
     }
     out.push(Sweep {
         name: "lines/chardef".into(),
